@@ -96,6 +96,14 @@ fn main() {
             probe::<Basic>(&src, false);
             let _ = V::Unit;
         }
+        "judge" => {
+            let src = args.get(3).cloned().unwrap_or_default().replace("\\n", "\n").replace("\\t", "\t");
+            let acc = props::sweep::judge_one(&args[2], &src);
+            println!("counters: {:?}", acc.counters);
+            for (k, v) in &acc.violations {
+                println!("VIOLATION {} :: {}", k, v.desc);
+            }
+        }
         "check" => cmd_check(&args[2..]),
         "replay" => cmd_replay(&args[2..]),
         other => {
